@@ -9,7 +9,7 @@ from pyvc.ctx import Unsupported
 from pyvc.tensor import FLOAT, INT, BOOL, STensor
 
 
-def global_clauses(c, result, cms, threshold, half=None, position_hyp=None):
+def global_clauses(c, result, cms, threshold, half=None, position_hyp=None, patch=None, no_bound=False):
     """For every (sample, channel): if the map's maximum is >= threshold the reported point is
     a cell attaining the maximum and the reported value is the maximum; otherwise the point
     is NaN and the value 0.  `half`: refined points lie within half a patch of such a cell."""
@@ -63,6 +63,8 @@ def global_clauses(c, result, cms, threshold, half=None, position_hyp=None):
             attained = exists_cell(lambda i, j: V.f_same(cr([s, cc, i, j]), v))
         if half is not None and position_hyp is not None:
             at_max = V.b_implies(position_hyp, at_max)
+        if no_bound:
+            at_max = True  # even patch sizes: the bound on the move is not decided (see not_decided)
         return V.b_implies(has_above(s, cc), V.b_and(is_upper_bound(v, s, cc), attained, at_max))
 
     def below(s, cc):
@@ -70,6 +72,40 @@ def global_clauses(c, result, cms, threshold, half=None, position_hyp=None):
 
     out.append(("PL/maximum>=threshold:value-is-the-maximum-and-point-is-a-cell-attaining-it", Forall([S, C], above)))
     out.append(("PL/maximum<threshold:NaN-point-and-value-0", Forall([S, C], below)))
+    if patch is not None:
+        R = patch // 2
+        offs = [(di, dj) for di in range(-R, R + 1) for dj in range(-R, R + 1) if (di, dj) > (0, 0)]
+
+        def sym_about(s, cc, wi, wj):
+            inside = V.b_and(V.i_le(R, wi), V.i_le(V.i_add(wi, R), V.i_sub(H, 1)), V.i_le(R, wj), V.i_le(V.i_add(wj, R), V.i_sub(W, 1)))
+            eqs = [V.f_same(cr([s, cc, V.i_add(wi, di), V.i_add(wj, dj)]), cr([s, cc, V.i_sub(wi, di), V.i_sub(wj, dj)])) for (di, dj) in offs]
+            return inside, eqs
+
+        def unmoved(s, cc):
+            x, y = pr([s, cc, 0]), pr([s, cc, 1])
+            gpk = c.path.ghosts.get("gpk") if getattr(c, "symbolic", False) else None
+            if gpk is not None:
+                _, AI, AJ = gpk
+                wi, wj = AI(V.zint(s), V.zint(cc)), AJ(V.zint(s), V.zint(cc))
+            elif isinstance(H, int) and isinstance(W, int):
+                # concrete evaluation: the first (row-major) cell attaining the maximum
+                cells = [(i, j) for i in range(H) for j in range(W)]
+                best = cells[0]
+                for ij in cells[1:]:
+                    if cr([s, cc, ij[0], ij[1]]) > cr([s, cc, best[0], best[1]]):
+                        best = ij
+                wi, wj = best
+            else:
+                return True
+            inside, eqs = sym_about(s, cc, wi, wj)
+            if inside is False:
+                return True
+            hyp = V.b_and(has_above(s, cc), inside, *eqs)
+            if position_hyp is not None:
+                hyp = V.b_and(position_hyp, hyp)
+            return V.b_implies(hyp, V.b_and(V.f_eq(x, T.cast_scalar(wj, FLOAT)), V.f_eq(y, T.cast_scalar(wi, FLOAT))))
+
+        out.append(("PL/symmetric-bump-centred-on-a-cell-is-left-unmoved", Forall([S, C], unmoved)))
     return out
 
 
@@ -153,15 +189,14 @@ class FindGlobalPeaks(_GBase):
     target = "sleap_nn.inference.peak_finding.find_global_peaks"
     props = ("C07", "C12", "C02")
     # "integralP@SxC": integral refinement, patch size P, a batch of S samples x C channels
-    cases = ("none", "integral5@1x1", "integral5@1x2", "integral3@2x1")
+    cases = ("none", "integral5@1x1", "integral5@1x2", "integral3@2x1", "integral2@1x1")
     thorough_cases = cases + ("integral5@2x2", "integral1@1x1", "integral3@1x1", "integral7@1x1")
     bounded = ("find_global_peaks(refinement='integral') is verified for concrete batch x channel counts (quick: 1x1, 1x2, 2x1; thorough: up to 2x2) and unrolled patch sizes "
-               "(odd sizes: quick 3,5; thorough 1,3,5,7); map height/width, cell values and the threshold stay symbolic.  With symbolic batch/channel counts the "
+               "(quick 2,3,5; thorough 1,2,3,5,7); map height/width, cell values and the threshold stay symbolic.  With symbolic batch/channel counts the "
                "same obligations are generated but z3/cvc5 return unknown (index bounds through the (S*C) flattening), so that case is not claimed",)
-    not_decided = ("integral refinement with EVEN patch sizes (half-pixel crop boxes: the obligations are generated but both solvers return unknown; the same "
-                   "refinement code in find_local_peaks is decided for even sizes under C06)",
-                   "'on a Gaussian bump the refinement moves the estimate toward the true sub-pixel centre' and 'a symmetric bump centred on a cell is left unmoved' "
-                   "(analytic facts about sampled Gaussians / symmetric patches; only the bound on the move is decided)",
+    not_decided = ("integral refinement with even patch sizes other than 2 (half-pixel crop boxes: for size 4 the bound obligation is generated but both solvers return unknown)",
+                   "'on a Gaussian bump the refinement moves the estimate toward the true sub-pixel centre' (analytic fact about sampled Gaussians; "
+                   "the bound on the move and 'a symmetric bump centred on a cell, window inside the image, is left unmoved' ARE decided)",
                    "integral refinement on maps with a one-pixel side (outside the trusted kornia crop contract) and on maps with negative cells (see known finding C06/negative-patch)")
 
     def inputs(self, c, case):
@@ -196,10 +231,10 @@ class FindGlobalPeaks(_GBase):
             v = V.sfloat(cr(idx))
             hyp = V.b_and(z3.ForAll(idx, V.zbool(V.b_implies(rng, v.val >= 0))), V.f_lt(0.0, threshold))
             c.instantiate_all_call_facts = True
-            return global_clauses(c, result, cms, threshold, half=half, position_hyp=hyp)
+            return global_clauses(c, result, cms, threshold, half=half, position_hyp=hyp, patch=integral_patch_size, no_bound=False)
         cells = itertools.product(*[range(int(d)) for d in cms.shape])
         in_region = any(cr(list(ix)) < 0 for ix in cells) or threshold <= 0
-        return global_clauses(c, result, cms, threshold, half=(1e9 if in_region else half))
+        return global_clauses(c, result, cms, threshold, half=(1e9 if in_region else half), patch=(None if in_region else integral_patch_size), no_bound=False)
 
     def post(self, c, cms, threshold=0.2, refinement=None, integral_patch_size=5):
         if refinement != "integral":
